@@ -68,9 +68,17 @@ type Contract struct {
 	Inline    bool
 	NoReturn  bool
 	Loops     map[int]*LoopSpec
+	Iterates  []*IterSpec
+	CallInvs  map[int][]*Clause
 	File      string
 	Line      int
 	Used      bool
+}
+
+type IterSpec struct {
+	Param, Var string
+	Where      *SExpr
+	Src        string
 }
 
 type GhostVar struct {
@@ -86,6 +94,7 @@ type SpecFunc struct {
 }
 
 type Define struct {
+	Pkg    string // package whose scope resolves the body's free names
 	Name   string
 	Params []string
 	Body   *SExpr
@@ -134,7 +143,7 @@ func NewContractSet() *ContractSet {
 
 var reFuncHdr = regexp.MustCompile(`^func\s+(?:\(([^)]*)\)\s*)?([A-Za-z_$][\w$.\[\],]*)`)
 var rePropLabel = regexp.MustCompile(`^\s*((?:C\d+,?)+/)?([A-Za-z_][\w\-.]*)\s*:\s+`)
-var keywords = []string{"preserves", "guarded", "captures", "nonnilpkg", "immutable", "assumes", "typeinv", "purepkg", "noreturn", "func", "iface", "props", "requires", "ensures", "modifies", "decreases", "may_panic", "no_panic", "pure", "trusted", "opaque", "inline", "loop", "ghost", "spec", "define", "axiom", "package"}
+var keywords = []string{"iterates", "call", "preserves", "guarded", "captures", "nonnilpkg", "immutable", "assumes", "typeinv", "purepkg", "noreturn", "func", "iface", "props", "requires", "ensures", "modifies", "decreases", "may_panic", "no_panic", "pure", "trusted", "opaque", "inline", "loop", "ghost", "spec", "define", "axiom", "package"}
 
 func startsWithKeyword(s string) string {
 	for _, k := range keywords {
@@ -372,7 +381,7 @@ func (cs *ContractSet) LoadFile(path, pkg string, trusted bool) {
 				errf(l.line, "bad define")
 				continue
 			}
-			d := &Define{Name: m[1]}
+			d := &Define{Name: m[1], Pkg: pkg}
 			for _, p := range splitCommaTop(m[2]) {
 				if p = strings.TrimSpace(p); p != "" {
 					d.Params = append(d.Params, p)
@@ -440,6 +449,39 @@ func (cs *ContractSet) LoadFile(path, pkg string, trusted bool) {
 				cur.Inline = true
 			case "noreturn":
 				cur.NoReturn = true
+			case "iterates":
+				// iterates <param> over <var> where <expr>   (higher-order callee: it calls <param>
+				// any number of times, each time with some <var> satisfying <expr>)
+				m := regexp.MustCompile(`^(\w+)\s+over\s+(\w+)\s+where\s+(.+)$`).FindStringSubmatch(rest)
+				if m == nil {
+					errf(l.line, "bad iterates clause (want: iterates f over x where expr)")
+					continue
+				}
+				e, err := ParseSpec(m[3])
+				if err != nil {
+					errf(l.line, "iterates: %v", err)
+					continue
+				}
+				cur.Iterates = append(cur.Iterates, &IterSpec{Param: m[1], Var: m[2], Where: e, Src: m[3]})
+			case "call":
+				// call <n> invariant [label:] expr : invariant of the callback iteration at the n-th call
+				f := strings.Fields(rest)
+				if len(f) < 3 || f[1] != "invariant" {
+					errf(l.line, "bad call clause (want: call <n> invariant expr)")
+					continue
+				}
+				k, err := strconv.Atoi(strings.TrimPrefix(f[0], "@"))
+				if err != nil {
+					errf(l.line, "bad call ordinal %q", f[0])
+					continue
+				}
+				body := strings.TrimSpace(strings.TrimPrefix(strings.TrimSpace(strings.TrimPrefix(rest, f[0])), "invariant"))
+				if c := parseClause(body, l.line); c != nil {
+					if cur.CallInvs == nil {
+						cur.CallInvs = map[int][]*Clause{}
+					}
+					cur.CallInvs[k] = append(cur.CallInvs[k], c)
+				}
 			case "loop":
 				f := strings.Fields(rest)
 				if len(f) < 2 {
